@@ -169,6 +169,7 @@ func Check(c *Case) (o core.Outcome) {
 				}
 				if d < lo || d > hi {
 					o.Fail = core.Failf("range", "decoded sample %d = %d outside the declared range [%d,%d]", i, d, lo, hi)
+					labelMagnitude(&o, im, src, L, step, j.COD.MCT == 1)
 					return
 				}
 				diff := math.Abs(float64(d - src[i]))
@@ -176,6 +177,7 @@ func Check(c *Case) (o core.Outcome) {
 				if diff > bound {
 					o.Fail = core.Failf("bound", "sample (x=%d,y=%d,c=%d): source %d decoded %d, |diff|=%.0f exceeds bound %.2f (quantisation %.2f x colour %.3f + allowance %.2f); levels=%d quality=%d",
 						x, y, ch, src[i], d, diff, bound, e, factor[ch], allow, L, cfg.Quality)
+					labelMagnitude(&o, im, src, L, step, j.COD.MCT == 1)
 					return
 				}
 				if bound > 0 && diff/bound > worst {
@@ -191,6 +193,94 @@ func Check(c *Case) (o core.Outcome) {
 		o.Label("tightness>10%%")
 	}
 	return
+}
+
+// labelMagnitude is evaluated for failing cases only. It runs the reference forward transform
+// (level shift, ICT when declared, L-level 9/7 analysis in float64) on the source and labels the
+// case "t1-magnitude>=2^25" when some coefficient divided by its declared step size reaches 2^25:
+// the library's tier-1 coder keeps six fractional bits below the quantised magnitude, so such a
+// value does not fit its int32 (known finding KF-C12-2). The comparison leaves 2^-12 relative
+// room for the library's single-precision arithmetic.
+func labelMagnitude(o *core.Outcome, im *gen.Image, src []int, L int, step []float64, ict bool) {
+	if MaxQuantisedMagnitude(im, src, L, step, ict) >= math.Ldexp(1, 25)*(1-math.Ldexp(1, -12)) {
+		o.Label("t1-magnitude>=2^25")
+	}
+}
+
+// MaxQuantisedMagnitude returns max over sub-bands b and coefficients c of |c| / step[b].
+func MaxQuantisedMagnitude(im *gen.Image, src []int, L int, step []float64, ict bool) float64 {
+	w, h := im.W, im.H
+	planes := make([][]float64, im.C)
+	shift := 0.0
+	if !im.Signed {
+		shift = math.Ldexp(1, im.P-1)
+	}
+	for ch := range planes {
+		planes[ch] = make([]float64, w*h)
+		for i := 0; i < w*h; i++ {
+			planes[ch][i] = float64(src[i*im.C+ch]) - shift
+		}
+	}
+	if ict && im.C == 3 {
+		for i := 0; i < w*h; i++ {
+			r, g, b := planes[0][i], planes[1][i], planes[2][i]
+			planes[0][i] = 0.299*r + 0.587*g + 0.114*b
+			planes[1][i] = -0.168736*r - 0.331264*g + 0.5*b
+			planes[2][i] = 0.5*r - 0.418688*g - 0.081312*b
+		}
+	}
+	worst := 0.0
+	note := func(v, st float64) {
+		if q := math.Abs(v) / st; q > worst {
+			worst = q
+		}
+	}
+	for _, pl := range planes {
+		cw, chh := w, h // current LL size, stored in the top-left of a w-stride buffer
+		for lev := 1; lev <= L; lev++ {
+			lw, lh := (cw+1)/2, (chh+1)/2
+			// rows
+			for y := 0; y < chh; y++ {
+				lo, hi := dwt97.Forward1D(pl[y*w : y*w+cw])
+				copy(pl[y*w:], lo)
+				copy(pl[y*w+lw:], hi)
+			}
+			// columns
+			col := make([]float64, chh)
+			for x := 0; x < cw; x++ {
+				for y := 0; y < chh; y++ {
+					col[y] = pl[y*w+x]
+				}
+				lo, hi := dwt97.Forward1D(col)
+				for y := range lo {
+					pl[y*w+x] = lo[y]
+				}
+				for y := range hi {
+					pl[(lh+y)*w+x] = hi[y]
+				}
+			}
+			base := 1 + 3*(L-lev) // HL, LH, HH of this level
+			for y := 0; y < chh; y++ {
+				for x := 0; x < cw; x++ {
+					switch {
+					case x >= lw && y < lh:
+						note(pl[y*w+x], step[base])
+					case x < lw && y >= lh:
+						note(pl[y*w+x], step[base+1])
+					case x >= lw && y >= lh:
+						note(pl[y*w+x], step[base+2])
+					}
+				}
+			}
+			cw, chh = lw, lh
+		}
+		for y := 0; y < chh; y++ {
+			for x := 0; x < cw; x++ {
+				note(pl[y*w+x], step[0])
+			}
+		}
+	}
+	return worst
 }
 
 func TestRapid(t *testing.T)  { core.RunRapid(t, ID, Gen, Check) }
